@@ -111,11 +111,16 @@ Qed.
 Lemma Vec2_rotate_norm : forall (a : V2 R) (phi : R),
   norm 2 (v2 (Vec2_rotate a phi)) = norm 2 (v2 a).
 Proof.
-  intros [a0 a1] phi. gsimp. name_root d Hd. same_roots d.
-  match goal with |- sqrt ?e = _ =>
-    match e with context [cos ?h] =>
-      replace e with (d * cos h * (d * cos h) + d * sin h * (d * sin h)) by ring end end.
-  apply sq_cos_sin. assumption.
+  intros [a0 a1] phi. gsimp.
+  first
+    [ (* via magnitude and heading, as the code does *)
+      name_root d Hd; same_roots d;
+      match goal with |- sqrt ?e = _ =>
+        match e with context [cos ?h] =>
+          replace e with (d * cos h * (d * cos h) + d * sin h * (d * sin h)) by ring end end;
+      apply sq_cos_sin; assumption
+    | (* or any polynomial in cos phi, sin phi *)
+      f_equal; pose proof (sin_cos_1 phi); nra ].
 Qed.
 
 (* if atan2 returns a polar angle, rotate is the rotation matrix applied to v *)
@@ -124,16 +129,19 @@ Lemma Vec2_rotate_ok : polar at2 -> forall (a : V2 R) (phi : R),
                        sin phi * v2 a 0%nat + cos phi * v2 a 1%nat).
 Proof.
   intros Hpolar [a0 a1] phi. destruct (Hpolar a0 a1) as [Hx Hy].
-  gsimp. name_root d Hd. same_roots d.
-  match type of Hd with _ = ?s =>
-    replace (a0 * a0 + a1 * a1) with s in Hx, Hy by ring end.
-  fold d in Hx, Hy.
-  set (h := at2 a1 a0) in *. rewrite cos_plus, sin_plus.
-  tuple_eq.
-  - transitivity (cos phi * (d * cos h) - sin phi * (d * sin h)); [ring|].
-    rewrite <- Hx, <- Hy. reflexivity.
-  - transitivity (sin phi * (d * cos h) + cos phi * (d * sin h)); [ring|].
-    rewrite <- Hx, <- Hy. reflexivity.
+  gsimp.
+  first
+    [ name_root d Hd; same_roots d;
+      match type of Hd with _ = ?s =>
+        replace (a0 * a0 + a1 * a1) with s in Hx, Hy by ring end;
+      fold d in Hx, Hy;
+      set (h := at2 a1 a0) in *; rewrite cos_plus, sin_plus;
+      tuple_eq;
+      [ transitivity (cos phi * (d * cos h) - sin phi * (d * sin h)); [ring|];
+        rewrite <- Hx, <- Hy; reflexivity
+      | transitivity (sin phi * (d * cos h) + cos phi * (d * sin h)); [ring|];
+        rewrite <- Hx, <- Hy; reflexivity ]
+    | tuple_eq; ring ].
 Qed.
 
 (* the heading of from_heading v h is h (as a direction), for v <> 0 *)
